@@ -161,6 +161,8 @@ class Differ:
             for lnode, rnode, max_match in unmatched_lnodes:
                 if max_match >= self.F and rnode in rnodes:
                     self.append_match(lnode, rnode, max_match)
+                    # A right node can only be matched once
+                    rnodes.remove(rnode)
                 else:
                     lnodes.append(lnode)
 
